@@ -601,7 +601,115 @@ def explore_sp_special(case):
             if not (math.isfinite(got) and abs(got - want) <= tol):
                 res.fail(site="casadi_to_sympy", clause="value_preserved", cls="alike;" + tag.split(";")[0], detail=dict(expr=tag, a=av, b=bv, converted=got, source=want, sympy=str(sm)[:200]), sub="special", case=case)
                 break
-    res.samples.append(dict(special="matrices (both directions, dense and sparse, with a caller's table), cse, f_dict, shared tables, names, alike-printing sub-expressions"))
+    # two guarded terms with DIFFERENT conditions combined by an operator (a pattern matcher that re-assembles an if_else from a sum of
+    # two if_else_zero terms must check that the conditions belong together): all ordered pairs of guard shapes x conditions, on points
+    # that realise every combination of truth values
+    a, b = ca.SX.sym("a"), ca.SX.sym("b")
+    conds = [("a>b", lambda: a > b), ("a<0.5", lambda: a < 0.5), ("b>=1", lambda: b >= 1), ("a!=b", lambda: ca.ne(a, b))]
+    shapes = [("x_else_y", lambda c: ca.if_else(c, a - b, 2 * b + 1)), ("x_else_0", lambda c: ca.if_else(c, a - b, 0)), ("0_else_y", lambda c: ca.if_else(c, 0, 0.8 * b + 3)),
+              ("not_c", lambda c: ca.if_else(ca.logic_not(c), a * b, 1.5))]
+    pts = [(0.2, -1.0), (0.2, 2.0), (0.75, 0.25), (0.75, 3.0), (2.0, 2.0), (-1.0, -1.0), (0.5, 1.0)]
+    for (c1n, c1), (c2n, c2) in itertools.product(conds, repeat=2):
+        if c1n == c2n:
+            continue
+        for (s1n, s1), (s2n, s2) in itertools.product(shapes, repeat=2):
+            for opn, op in (("+", lambda u_, v_: u_ + v_), ("*", lambda u_, v_: u_ * v_), ("-", lambda u_, v_: u_ - v_)):
+                res.count("evaluations")
+                tag = "%s(%s) %s %s(%s)" % (s1n, c1n, opn, s2n, c2n)
+                res.nontrivial.add(hash(("two_guards", tag)))
+                ex = op(s1(c1()), s2(c2()))
+                try:
+                    with contextlib.redirect_stdout(io.StringIO()):
+                        sm = S.casadi_to_sympy(ex, {})
+                except NotImplementedError:
+                    res.count("refused")
+                    continue
+                except Exception as ex_:
+                    res.fail(site="casadi_to_sympy", clause="value_preserved", cls="two_guards;raises", detail=dict(expr=tag, error="%s: %s" % (type(ex_).__name__, str(ex_)[:200])), sub="special", case=case)
+                    continue
+                fnum = ca.Function("g", [a, b], [ex])
+                for av, bv in pts:
+                    want = float(fnum(av, bv))
+                    try:
+                        got = float(sympy.N(sm.subs({s_: (av if str(s_) == "a" else bv) for s_ in sm.free_symbols}), 17))
+                    except Exception:
+                        got = float("nan")
+                    if not abs(got - want) <= 1e-12 * (1 + abs(want)):
+                        res.fail(site="casadi_to_sympy", clause="value_preserved", cls="two_guards;" + opn, detail=dict(expr=tag, a=av, b=bv, converted=got, source=want, sympy=str(sm)[:200]), sub="special", case=case)
+                        break
+    # a caller's table shared by conversions whose CasADi variables do not live equally long: the first expression's variables are
+    # dropped (and collected) before the second one's are created; the table must still map each name to its own symbol
+    import gc
+
+    def convert_temporaries(table, names):
+        vs = [ca.SX.sym(n_) for n_ in names]
+        e = vs[0] * 2 + ca.sin(vs[1]) - vs[0] * vs[1]
+        with contextlib.redirect_stdout(io.StringIO()):
+            return S.casadi_to_sympy(e, table), names
+    for rounds in (2, 5):
+        table = {}
+        got_all = []
+        ok = True
+        for r_ in range(rounds):
+            names = ["alpha%d" % r_, "beta%d" % r_]
+            try:
+                sm, _ = convert_temporaries(table, names)
+            except Exception as ex_:
+                res.count("evaluations")
+                res.fail(site="casadi_to_sympy", clause="symbol_table_consistent", cls="short_lived_variables;raises", detail=dict(error="%s: %s" % (type(ex_).__name__, str(ex_)[:200])), sub="special", case=case)
+                ok = False
+                break
+            gc.collect()
+            res.count("evaluations")
+            res.nontrivial.add(hash(("short_lived", rounds, r_)))
+            free = sorted(str(x) for x in sm.free_symbols)
+            val = {x: (0.7 if str(x).startswith("alpha") else -1.3) for x in sm.free_symbols}
+            got = float(sympy.N(sm.subs(val), 17)) if len(val) == 2 else float("nan")
+            want = 0.7 * 2 + math.sin(-1.3) - 0.7 * -1.3
+            if free != sorted(names) or not abs(got - want) <= 1e-12:
+                res.fail(site="casadi_to_sympy", clause="symbol_table_consistent", cls="short_lived_variables", detail=dict(round=r_, names=names, free_symbols=free, converted=got, source=want, sympy=str(sm)[:200]), sub="special", case=case)
+                break
+    # two conversions in two threads, every interleaving of the converter's Python statements with at most one preemption: each returns
+    # what it returns alone (its own function map, its own table)
+    from .. import threads
+    fA, fB = sympy.Function("fa"), sympy.Function("fb")
+    # (small trees: two preemptions are needed to put one conversion inside the other - enter A, enter B, continue A - and the number of
+    # schedules grows with the square of the number of statements executed)
+    srcA = fA(X) ** fA(Y)
+    srcB = fB(Y) - X
+    dA = {"fa": lambda v: ca.tanh(v)}
+    dB = {"fb": lambda v: 3 * v + 1}
+
+    def conv(src, fd):
+        def call():
+            e_ca, symbols = S.sympy_to_casadi(src, f_dict=dict(fd))
+            fx = ca.Function("f", [symbols.get("x", ca.SX.sym("x")), symbols.get("y", ca.SX.sym("y"))], [ca.SX(e_ca)])
+            return (tuple(sorted(symbols)), tuple(round(float(fx(xv, yv)), 12) for xv, yv in ((0.5, 2.0), (1.25, 0.75))))
+        return call
+    cA, cB = conv(srcA, dA), conv(srcB, dB)
+    _quiet = contextlib.redirect_stdout(io.StringIO())  # one redirection around the exploration, none inside the threads
+    _quiet.__enter__()
+    try:
+        alone = [cA(), cB()]
+        nrun = 0
+        for choices, results, npts, capped in threads.explore([cA, cB], ("cyecca/symbolic.py",), 2, max_runs=(6000 if case.get("tier") != "thorough" else 200000),
+                                                               granularity=("call" if case.get("tier") != "thorough" else "line")):
+            if capped:
+                res.counters["thread_schedules_capped"] += 1
+                break
+            nrun += 1
+            res.count("evaluations")
+            res.count("schedules")
+            res.nontrivial.add(hash(("threads", tuple(choices))))
+            bad = [k for k, r_ in enumerate(results) if r_ is None or r_[0] != "ok" or r_[1] != alone[k]]
+            if bad:
+                res.fail(site="sympy_to_casadi", clause="conversion_independent_of_a_concurrent_conversion", cls="threads", detail=dict(thread=bad[0], schedule=choices, got=str(results[bad[0]])[:200], alone=str(alone[bad[0]])), sub="special", case=case)
+                break
+    except Exception as ex_:  # a refusal of the constructs themselves is reported by the sequential checks
+        res.count("refused")
+    finally:
+        _quiet.__exit__(None, None, None)
+    res.samples.append(dict(special="matrices (both directions, dense and sparse, with a caller's table), cse, f_dict, shared tables, names, alike-printing sub-expressions, two guards, short-lived variables, two threads"))
     return res
 
 
